@@ -383,6 +383,7 @@ func c20(r *core.Run) {
 	r.Extra["ext_funcs"] = ext.FuncNames()
 	if ext.VariantLevel > 0 {
 		r.Extra["ext_inlined"] = ext.Inlined
+		r.Extra["ext_structs_split"] = ext.Split
 	}
 	all := ext.AllFuncs()
 	inMod := map[*ssa.Function]bool{}
@@ -392,10 +393,11 @@ func c20(r *core.Run) {
 	fnFormat := ext.Func(fmtRel, "", "FileNamingFormat")
 	fnCamel := ext.Func(strxRel, "String", "ToCamel")
 	fnSnake := ext.Func(strxRel, "String", "ToSnake")
+	consts := &c20Consts{all: all}
 	posOf := func(in ssa.Instruction) string { return p.InstrPos(in) }
 
 	// ------------------------------------------------------------------ D1
-	r.Check("D1/K5/deterministic-entry-points", "FileNamingFormat, String.ToCamel, String.ToSnake and everything they reach in the three packages call nothing from time, math/rand, crypto/rand, os, os/user, os/exec, runtime, syscall, net; start no goroutine, select on nothing, iterate no map; call function values only when they are parameters/closures; read only package-level variables that are error sentinels assigned once in an initialiser", func(o *core.O) {
+	r.Check("D1/K5/deterministic-entry-points", "FileNamingFormat, String.ToCamel, String.ToSnake and everything they reach in the three packages call nothing from time, math/rand, crypto/rand, os, os/user, os/exec, runtime, syscall, net; start no goroutine, select on nothing, iterate no map; call function values only when they are parameters/closures, function constants or entries of a constant table; read only package-level variables that are error sentinels assigned once in an initialiser or unexported constant tables (assigned once from a literal of constants and functions, only read)", func(o *core.O) {
 		entries := []*ssa.Function{fnFormat, fnCamel, fnSnake}
 		for i, e := range entries {
 			if !o.Need(e != nil, []string{"format.FileNamingFormat", "stringx.String.ToCamel", "stringx.String.ToSnake"}[i]) {
@@ -409,6 +411,20 @@ func c20(r *core.Run) {
 				reach[f] = true
 				work = append(work, f)
 			}
+		}
+		// a package-level table that is a constant (initialised once from a literal of
+		// constants and functions, never written, never escaping) is not state; the
+		// functions it holds are reachable from whoever reads it
+		isInMod := func(g *ssa.Global) bool { return g.Pkg != nil && inMod[g.Pkg.Func("init")] }
+		tableFuncs := func(g *ssa.Global) ([]*ssa.Function, bool) {
+			if !isInMod(g) {
+				return nil, false
+			}
+			v, ok := consts.of(g)
+			if !ok {
+				return nil, false
+			}
+			return c20FuncsIn(v, nil), true
 		}
 		for _, e := range entries {
 			add(e)
@@ -424,6 +440,11 @@ func c20(r *core.Run) {
 							add(x)
 						case *ssa.MakeClosure:
 							add(x.Fn.(*ssa.Function))
+						case *ssa.Global:
+							fs, _ := tableFuncs(x)
+							for _, tf := range fs {
+								add(tf)
+							}
 						}
 					}
 				}
@@ -486,10 +507,43 @@ func c20(r *core.Run) {
 							}
 						}
 						if strings.HasPrefix(name, "dyn:") && !strings.HasPrefix(name, "dyn:param:") && !strings.HasPrefix(name, "dyn:freevar:") {
-							o.Fail(posOf(in), "%s calls a function value that is not a parameter or captured closure (%s)", core.FuncName(f), name)
+							// a function read from constant tables: its possible callees are the table's functions (checked below)
+							// … or function constants chosen per path (in-module ones are reached through the operand scan above)
+							known := false
+							if roots, fns, ok := c20CalleeSources(c.Common().Value); ok && !c.Common().IsInvoke() {
+								known = true
+								for _, g := range roots {
+									if _, isConst := tableFuncs(g); !isConst {
+										known = false
+									}
+								}
+								for _, tf := range fns {
+									if inMod[tf] {
+										continue
+									}
+									tn := c20FuncName(tf)
+									for _, bad := range banned {
+										if strings.HasPrefix(tn, bad) {
+											o.Fail(posOf(in), "%s calls %s through a function value: the result would depend on more than the template and the identifier", core.FuncName(f), tn)
+										}
+									}
+								}
+							}
+							if !known {
+								o.Fail(posOf(in), "%s calls a function value that is not a parameter, a captured closure, a function constant or an entry of a constant package-level table (%s)", core.FuncName(f), name)
+							}
 						}
 					}
 					for _, op := range in.Operands(nil) {
+						if fv, isFn := (*op).(*ssa.Function); isFn && !inMod[fv] && !(core.AsCall(in) != nil && core.AsCall(in).Common().Value == ssa.Value(fv)) {
+							// a function constant used as a value (argument, φ input, stored) is as good as called
+							tn := c20FuncName(fv)
+							for _, bad := range banned {
+								if strings.HasPrefix(tn, bad) {
+									o.Fail(posOf(in), "%s uses %s as a function value: the result would depend on more than the template and the identifier", core.FuncName(f), tn)
+								}
+							}
+						}
 						g, ok := (*op).(*ssa.Global)
 						if !ok {
 							continue
@@ -497,8 +551,20 @@ func c20(r *core.Run) {
 						if g.Pkg == nil || !inMod[g.Pkg.Func("init")] {
 							continue // variables of other modules (io.EOF, language.English, cases.NoLower): library constants
 						}
-						if !isErrorType(g.Type()) {
-							o.Fail(posOf(in), "%s uses the package-level variable %s (mutable state)", core.FuncName(f), g.Name())
+						if fs, isConst := tableFuncs(g); isConst {
+							for _, tf := range fs {
+								if inMod[tf] {
+									continue // reached: checked like every other function
+								}
+								tn := c20FuncName(tf)
+								for _, bad := range banned {
+									if strings.HasPrefix(tn, bad) {
+										o.Fail(posOf(in), "%s reads the table %s, which holds %s: the result would depend on more than the template and the identifier", core.FuncName(f), g.Name(), tn)
+									}
+								}
+							}
+						} else if !isErrorType(g.Type()) {
+							o.Fail(posOf(in), "%s uses the package-level variable %s (mutable state: not an unexported constant table assigned once from a literal and only read)", core.FuncName(f), g.Name())
 						} else if !initOnly(g) {
 							o.Fail(posOf(in), "%s uses %s, which is reassigned outside its initialiser", core.FuncName(f), g.Name())
 						}
@@ -785,6 +851,28 @@ func c20(r *core.Run) {
 		}
 		f := fnGetStyle
 		r.Fn(core.FuncName(f))
+		// decided twice: on the guard structure (below), and – when that does not
+		// establish it – by evaluating the classifier on a symbolic flag
+		// (c20EvalClassifier: switch, if chain, scan over a constant table of
+		// (style, spelling function) alike). Either is sufficient.
+		verdict0, msgs0 := o.Verdict, len(o.Msgs)
+		defer func() {
+			if o.OK() {
+				return
+			}
+			tbl, why := c20EvalClassifier(consts, f)
+			if why != "" {
+				o.Fail(p.Pos(f.Pos()), "%s, evaluated on a symbolic flag: %s", core.FuncName(f), why)
+				return
+			}
+			o.Verdict, o.Msgs = verdict0, o.Msgs[:msgs0]
+			for k := range styleOf {
+				delete(styleOf, k)
+			}
+			for k, c := range tbl {
+				styleOf[k] = c
+			}
+		}()
 		flag := f.Params[0]
 		fromLowered := func(v ssa.Value) (ok bool, lowered bool) {
 			for i := 0; i < 4; i++ {
@@ -985,6 +1073,19 @@ func c20(r *core.Run) {
 		r.Fn(core.FuncName(f))
 		word, sty := f.Params[0], f.Params[1]
 		check := func(k int64, want string) {
+			// by evaluation first (switch, if chain, lookup in a constant map of functions alike) …
+			n, evalWhy := c20EvalConverter(consts, f, k, want)
+			if evalWhy == "" {
+				o.Site(n)
+				return
+			}
+			nMsgs := len(o.Msgs)
+			defer func() {
+				if len(o.Msgs) > nMsgs {
+					o.Fail(p.Pos(f.Pos()), "%s, evaluated for style %d on a symbolic word: %s", core.FuncName(f), k, evalWhy)
+				}
+			}()
+			// … else on the branch structure
 			cut := cutForValue(f, sty, k)
 			rets := reachableUnder(f, cut, core.IsReturn)
 			o.Site(len(rets))
